@@ -981,3 +981,33 @@ def err4(prog):
                   '`return 0` at line %s is not dominated by a test of AsmContext::error' % (bad[0]['l'] if bad else ''),
                   'every `return 0` (%d) is dominated by the test of AsmContext::error' % nret0))
     return RuleResult('R-ERR4', obs, 3, {})
+
+
+def eof_err(prog):
+    """EOF-ERR: tokens_get() reports a failure to its callers as TOKEN_EOF, which assemble() cannot tell from the real
+    end of the input; the only trace of the failure is asm_context->error_count.  Every explicit `return TOKEN_EOF` in
+    tokens_get() therefore has `error_count++` in its block (the real end of input is returned through `token_type`)."""
+    fn = prog.fn('tokens_get')
+    obs = []
+    k = 0
+    for n in sorted(fn.nodes.values(), key=lambda x: x['i']):
+        if n['k'] != 'ReturnStmt' or not kids(n):
+            continue
+        e = strip(kids(n)[0], casts=True)
+        if not (e['k'] == 'DeclRefExpr' and e.get('n') == 'TOKEN_EOF'):
+            continue
+        w = fn.where.get(n['i'])
+        if w is None:
+            continue
+        k += 1
+        bumped = False
+        for el in fn.blocks[w[0]]['e'][:w[1]]:
+            x = fn.nodes.get(el)
+            if x is not None and x['k'] == 'UnaryOperator' and x.get('op') == '++' and 'error_count' in show(kids(x)[0]):
+                bumped = True
+        obs.append(Ob('EOF-ERR', fn.file, n['l'], fn.q, 'return-TOKEN_EOF#%d' % k, DISCHARGED if bumped else VIOLATED,
+                      '' if bumped else 'this `return TOKEN_EOF` reports a failure without `error_count++`: assemble() takes it for the end of '
+                      'the file, the rest of the source is skipped silently and the exit status stays 0', 'error_count++ before the return'))
+    if k < 3:
+        raise AnalysisBroken('EOF-ERR: only %d explicit TOKEN_EOF returns in tokens_get' % k)
+    return RuleResult('EOF-ERR', obs, 3, {})
